@@ -98,7 +98,9 @@ def run_filter_rows(case):
         want[idx] = c
         if list(g) != want:
             raise Violation("filter-rows", f"row {r} became {list(g)}, expected {want}")
-    return {"classes": ["rows"], "nontrivial": len(rows) >= 3}
+    times = [r[0] for r in rows]
+    cl = ["rows"] + (["rows_not_in_strictly_increasing_time_order"] if any(a >= b for a, b in zip(times, times[1:])) else [])
+    return {"classes": cl, "nontrivial": len(rows) >= 3}
 
 
 def run_znorm(case):
@@ -303,7 +305,12 @@ def median_cases():
 def row_cases(draw):
     xs = draw(series())
     rows = [[float(i), v, -1.0] for i, v in enumerate(xs)]
-    return {"rows": rows, "index": 1, "window": draw(st.integers(0, 8)), "pad": draw(st.booleans())}
+    r = draw(st.integers(0, 3))
+    if r == 0:
+        rows = [[float(i // 2), v, -1.0] for i, v in enumerate(xs)]  # pairs of rows with one timestamp (whatever their values)
+    elif r == 1 and rows:
+        rows = draw(st.permutations(rows))  # rows are filtered in the order given, not in order of time
+    return {"rows": [list(x) for x in rows], "index": 1, "window": draw(st.integers(0, 8)), "pad": draw(st.booleans())}
 
 
 @st.composite
